@@ -379,25 +379,14 @@ Lemma apply_update_id sfs ufs wi now sd d' id0 :
      (assoc "_id" fs' = None /\ exists i, assoc "_id" sfs = Some i /\ is_null i = true)).
 Proof.
   intros Hu Hsd Hid Hnn Hsrc Hun Hheads H.
-  assert (Hbase : (exists i, assoc "_id" sfs = Some i /\ is_null i = true /\
-                     C02Replace.rep_base (C02Replace.rep_id (VDoc sfs) (VDoc sd)) = []) \/
-                  C02Replace.rep_base (C02Replace.rep_id (VDoc sfs) (VDoc sd)) = [("_id", id0)] /\
-                  C02Replace.rep_id (VDoc sfs) (VDoc sd) = Some id0).
-  { unfold C02Replace.rep_id, C02Replace.rep_base.
-    destruct Hsrc as [E|[E|[i [E Hi]]]]; rewrite E.
-    - right. rewrite Hnn. auto.
-    - right. rewrite Hid, Hnn. auto.
-    - left. exists i. rewrite Hi. auto. }
+  (* repaired library: the kept _id is the seed's own, whatever the filter says about _id, so
+     the first alternative of the conclusion always holds (Hsrc is not needed any more) *)
+  assert (Hr : C02Replace.rep_id (VDoc sfs) (VDoc sd) = Some id0).
+  { unfold C02Replace.rep_id. rewrite Hid, Hnn. reflexivity. }
   destruct ufs as [|[k0 v0] rest].
-  - assert (E0 : apply_update (VDoc sfs) (VDoc []) wi now (VDoc sd) =
-                 Ok (VDoc (C02Replace.rep_base (C02Replace.rep_id (VDoc sfs) (VDoc sd)))))
-      by reflexivity.
-    rewrite E0 in H. clear E0.
-    assert (Ed : d' = VDoc (C02Replace.rep_base (C02Replace.rep_id (VDoc sfs) (VDoc sd)))) by congruence.
-    clear H. subst d'. eexists. split; [reflexivity|].
-    destruct Hbase as [[i [E [Hi Hb]]]|[Hb _]]; rewrite Hb.
-    + right. split; [reflexivity|]. exists i. auto.
-    + left. reflexivity.
+  - simpl in H. rewrite Hid, Hnn in H.
+    assert (Ed : d' = VDoc [("_id", id0)]) by congruence.
+    clear H. subst d'. eexists. split; [reflexivity|]. left. reflexivity.
   - destruct (starts_dollar k0) eqn:Ek.
     + assert (Hf : first_key_dollar (VDoc ((k0, v0) :: rest)) = Some true) by (simpl; rewrite Ek; reflexivity).
       pose proof (apply_update_chain _ _ _ _ _ _ Hf Hu Hsd H) as Hc.
@@ -408,14 +397,12 @@ Proof.
       destruct (existsb _ ((k0, v0) :: rest)); [discriminate|]. cbv zeta in H.
       apply wf_doc_iff in Hu. destruct Hu as [Hnd _].
       rewrite (C02Replace.merged_assoc _ _ "_id" Hnd), Hun in H.
-      destruct Hbase as [[i [E [Hi Hb]]]|[Hb Hr]].
-      * rewrite Hb in H. simpl in H. discriminate.
-      * rewrite Hb, Hr in H.
-        change (assoc "_id" [("_id", id0)]) with (Some id0) in H. cbv beta iota in H.
-        destruct (py_eq id0 id0); [|discriminate]. cbv beta iota delta [bind] in H.
-        assert (Ed : d' = VDoc (C02Replace.rep_merged ((k0, v0) :: rest) [("_id", id0)])) by congruence.
-        clear H. subst d'. eexists. split; [reflexivity|]. left.
-        rewrite (C02Replace.merged_assoc _ _ "_id" Hnd), Hun. reflexivity.
+      rewrite Hr in H. cbn [C02Replace.rep_base] in H.
+      change (assoc "_id" [("_id", id0)]) with (Some id0) in H. cbv beta iota in H.
+      destruct (py_eq id0 id0); [|discriminate]. cbv beta iota delta [bind] in H.
+      assert (Ed : d' = VDoc (C02Replace.rep_merged ((k0, v0) :: rest) [("_id", id0)])) by congruence.
+      clear H. subst d'. eexists. split; [reflexivity|]. left.
+      rewrite (C02Replace.merged_assoc _ _ "_id" Hnd), Hun. reflexivity.
 Qed.
 
 (* ---------------------------------------------------------------- the filter *)
